@@ -133,6 +133,9 @@ func describe(c Case) string {
 	for _, p := range c.Plugins {
 		hs, gen, bye := p.Script.Kinds()
 		s := fmt.Sprintf("%s[hs=%s gen=%s bye=%s", p.Name, hs, gen, bye)
+		if p.Script.Handshake.FeatureList {
+			s += fmt.Sprintf(" features=%v", p.Script.Handshake.Features)
+		}
 		if p.Script.ExitStatus != 0 {
 			s += fmt.Sprintf(" exit=%d", p.Script.ExitStatus)
 		}
@@ -253,6 +256,9 @@ func judge(c Case, o *fplab.Obs) error {
 		// --- gate: generate only after a conforming handshake that advertised the feature
 		if ngen > 0 && !p.Advertises() {
 			hs, _, _ := p.Script.Kinds()
+			if p.Conforms() && hs != fplab.KNoFeature {
+				return ev.Errf("gate/generate-without-service-generator-feature", "plugin %s advertised the features %v (SERVICE_GENERATOR = %d is not among them) and still received generate: %s", p.Name, p.Script.Handshake.Features, fplab.FeatureServiceGenerator, tr)
+			}
 			return ev.Errf("gate/generate-after-"+hs+"-handshake", "plugin %s answered the handshake with %q and still received generate: %s", p.Name, hs, tr)
 		}
 		// --- reaping: gone, and logged its exit, before the host returned
@@ -302,7 +308,7 @@ func nontrivial(c Case) bool {
 	}
 	for _, p := range c.Plugins {
 		hs, gen, bye := p.Script.Kinds()
-		if hs != fplab.KOK || gen != fplab.KOK || bye != fplab.KOK || p.Script.ExitStatus != 0 {
+		if hs != fplab.KOK || gen != fplab.KOK || bye != fplab.KOK || p.Script.ExitStatus != 0 || p.Script.Handshake.FeatureList {
 			return true
 		}
 	}
@@ -315,6 +321,9 @@ func classes(c Case, o *fplab.Obs) []string {
 	for i, p := range c.Plugins {
 		hs, gen, bye := p.Script.Kinds()
 		cls = append(cls, "handshake:"+hs, "generate:"+gen, "goodbye:"+bye)
+		if p.Conforms() {
+			cls = append(cls, p.FeatureClass())
+		}
 		for _, st := range []fplab.Step{p.Script.Handshake, p.Script.Generate, p.Script.Goodbye} {
 			if st.Write != "" && st.Write != fplab.WWhole {
 				cls = append(cls, "write:"+st.Write)
@@ -437,6 +446,17 @@ func genPlugin(t *rapid.T, name string, faultBias int) fplab.Plugin {
 	genStep(t, name, fplab.StepHandshake, &p.Script.Handshake, (faultBias+1)/2)
 	genStep(t, name, fplab.StepGenerate, &p.Script.Generate, faultBias)
 	genStep(t, name, fplab.StepGoodbye, &p.Script.Goodbye, faultBias)
+	// the advertised feature list: usually [SERVICE_GENERATOR]; otherwise empty,
+	// only values unknown to the host, those mixed with SERVICE_GENERATOR,
+	// repetitions (none of this is a failure)
+	if rapid.IntRange(0, 2).Draw(t, name+"_featurelist") == 0 {
+		p.Script.Handshake.FeatureList = true
+		if rapid.Bool().Draw(t, name+"_features_table") {
+			p.Script.Handshake.Features = rapid.SampledFrom(fplab.FeatureLists).Draw(t, name+"_features")
+		} else {
+			p.Script.Handshake.Features = rapid.SliceOfN(rapid.SampledFrom([]int32{0, 1, 1, 2, 3, 7, -1, 255, 256, 2147483647, -2147483648}), 0, 4).Draw(t, name+"_features_drawn")
+		}
+	}
 	if faultBias == 0 {
 		// healthy plugin: only the deviations that are not failures
 		if rapid.IntRange(0, 3).Draw(t, name+"_nofeature") == 0 {
@@ -528,6 +548,11 @@ func faultRows(name string) []fplab.Plugin {
 			rows = append(rows, p)
 		}
 	}
+	for _, fl := range fplab.FeatureLists {
+		p := fplab.OKPlugin(name)
+		p.Script.Handshake.FeatureList, p.Script.Handshake.Features = true, fl
+		rows = append(rows, p)
+	}
 	p := fplab.OKPlugin(name)
 	p.Script.ExitStatus = 3
 	rows = append(rows, p)
@@ -550,7 +575,7 @@ func TestFaultGrid(t *testing.T) {
 		cases = append(cases, Case{Src: "fault-grid", Thrift: thriftSrc, Plugins: []fplab.Plugin{healthy, p}})
 	}
 	ran := gridRun(t, "fault-grid", cases)
-	ev.Exhaustive(fmt.Sprintf("fault-grid(%d rows = every fault kind x step + write modes + exit status + linger; alone / before / after a healthy plugin)", len(rows)), true)
+	ev.Exhaustive(fmt.Sprintf("fault-grid(%d rows = every fault kind x step + write modes + advertised feature lists (empty / only unknown values / unknown next to SERVICE_GENERATOR / repeated) + exit status + linger; alone / before / after a healthy plugin)", len(rows)), true)
 	ev.Note("fault-grid", fmt.Sprintf("%d cases in total, %d in this shard", len(cases), ran))
 }
 
